@@ -586,6 +586,9 @@ pub fn equivalent_pairs() -> Vec<(&'static str, String, String)> {
         ("number in another base",
          "#[size(32)] pub type T { #[address(16)] pub a: [u8; 16] }\npub enum E: u16 { A = 255 }".into(),
          "#[size(0x20)] pub type T { #[address(0x10)] pub a: [u8; 0x10] }\npub enum E: u16 { A = 0xFF }".into()),
+        ("every numeric position in another base (hex / binary / octal / separators / suffix-free)",
+         "#[size(64), align(16), singleton(4096)] pub type T { vftable { #[index(2)] pub fn f(&self); }, #[address(16)] pub a: [u8; 10], _: unknown<6>, #[address(32)] pub b: u64 }\nimpl T { #[address(65536)] pub fn g(&self); }\n#[singleton(255)] pub enum E: i32 { A = -2, B = 31, C }\n#[address(1024)] pub extern x: u32;\n#[size(8), align(8)] extern type X;".into(),
+         "#[size(0x40), align(0b10000), singleton(0x1000)] pub type T { vftable { #[index(0o2)] pub fn f(&self); }, #[address(0x10)] pub a: [u8; 0xA], _: unknown<0b110>, #[address(0o40)] pub b: u64 }\nimpl T { #[address(0x1_0000)] pub fn g(&self); }\n#[singleton(0xFF)] pub enum E: i32 { A = -0x2, B = 0b1_1111, C }\n#[address(0x4_00)] pub extern x: u32;\n#[size(0o10), align(0x8)] extern type X;".into()),
         ("digit separators",
          "#[align(8)] pub type T { #[address(4096)] pub a: u64 }".into(), "#[align(8)] pub type T { #[address(4_096)] pub a: u64 }".into()),
         ("reordered type definitions",
